@@ -6,7 +6,7 @@ SPEC = {
     "theorems": {"Properties.C01": [
         "C01_sound_guarded", "C01_sound_partial", "C01_rule_sound", "C01_rule_sound_merge", "C01_plain_fragment_inside",
         "C01_mask_id", "C01_key_tables", "C01_fixed_witnesses_blocked", "C01_fixed_witnesses_blocked_round3", "C01_fixed_witnesses_blocked_tag_kind",
-        "C01_sound_refuted_merge_not_alias", "C01_nonvacuous", "C01_nonvacuous_alias", "C01_nonvacuous_merge"]},
+        "C01_sound_refuted_merge_not_alias", "C01_sound_refuted_group_label_key_alias", "C01_nonvacuous", "C01_nonvacuous_alias", "C01_nonvacuous_merge"]},
     "harness_args": lambda tier: (["C01", "--n", 300, "--cat", 40, "--stress", 4] if tier == "quick"
                                   else ["C01", "--n", 8000, "--cat", -1, "--stress", 40]),
     "search_args": lambda tier: ["C01", "--n", 3000, "--cat", -1, "--stress", 16],
@@ -24,14 +24,15 @@ SPEC = {
         "LabelValue.IsValid, template ParseTest, pint's checkTemplateSyntax, yaml.Node.Decode into string/int/interface{}); (iv) the oracle "
         "hypotheses H_tmpl and H_empty are re-checked on every case",
         "oracle hypotheses of the theorem: H_tmpl (pint template check at least as strict as Prometheus'), H_str (a non-null scalar decodes "
-        "into a string), H_null (a null-tagged scalar spelling a null resolves to null), H_empty (\"\" is no label name, is a label value, "
+        "into a string), H_empty (\"\" is no label name, is a label value, "
         "is a valid template); the same oracle int_ok is used by pint's limit check and by the loader",
         "assumed, not modelled: the second, position-only decode of rulefmt.Parse fails only where the first one does; files with pint control "
         "comments are skipped (mask_id covers the others); only the Prometheus schema (not Thanos)",
     ],
     "assumptions": [
-        "theorem restricted to the documented fragment guards_doc (natural tags, null-tagged scalars spell a null; aliases only as values of "
-        "rule keys and inside rule labels/annotations; at most one merge key `<<: *anchor` per rule mapping, none elsewhere); outside it the property is only searched by the implementation-level "
+        "theorem restricted to the documented fragment guards_doc (yaml.v3's structural invariants, no null-tagged mapping keys; aliases only as "
+        "values of rule keys, inside rule labels/annotations and as values of group keys; at most one merge key `<<: *anchor` per rule "
+        "mapping, none elsewhere); outside it the property is only searched by the implementation-level "
         "oracle (pint verdict vs rulefmt.Parse directly)",
         "strict_blocks models a subset of pint's Bug/Fatal problems; soundness direction: real pint passes => model does not block",
     ],
@@ -42,9 +43,9 @@ def run(ctx):
     return pv.standard(ctx, SPEC)
 
 MANIFEST = {
-    "text": "Theorem (Coq, no axioms, all oracles as premises): for every document stream inside the documented fragment (no explicit "
-            "collection tags; yaml aliases allowed as values of rule keys and of rule labels/annotations; one merge key `<<: *anchor` per "
-            "rule), if the model of pint's "
+    "text": "Theorem C01_sound_guarded (Coq, no axioms, all oracles as premises): for every document stream inside the documented fragment "
+            "(nodes shaped as yaml.v3 builds them, tags free; yaml aliases allowed as values of rule keys, of rule labels/annotations and "
+            "of group keys; one merge key `<<: *anchor` per rule), if the model of pint's "
             "strict pipeline reports no Bug/Fatal (yaml/parse, promql/syntax, alerts/for, alerts/template syntax) then the model of "
             "Prometheus' loader (yaml.v3 struct decoding with KnownFields + rulefmt Validate) accepts the same node forest; the rule-level "
             "core on its own; the alias-free fragment is an instance; the masking reader masks nothing on files without pint control "
@@ -52,7 +53,11 @@ MANIFEST = {
             "re-checked per case). The guards for null record/alert/expr, nameless groups and non-int "
             "limits are gone (repaired in pint: d65cbbf, cc77cdd, a6b0afc) and their former witnesses are machine-checked to be blocked now. "
             "The unguarded statement is machine-refuted by one remaining witness that the real pint passes and the real rulefmt.Parse "
-            "refuses (`<<` merge of a non-alias: known finding with class predicate). Four more classes found or confirmed this round "
+            "refuses (`<<` merge of a non-alias; a second witness for group label keys given as aliases: two known findings with class "
+            "predicates). The premises pint now enforces itself are gone from the theorem: H_null and 'null-tagged scalars spell a null' "
+            "(strict pre-pass b9483ac + extensionality of the loader model in its null oracle over reachable nodes), every 'tag matches "
+            "kind' clause (kind_mismatch at nine sites), 'group-level values are not aliases' (17469da); C01_sound_partial is kept as a "
+            "corollary. Four more classes found or confirmed this round "
             "(scalar tagged !!null with text, group `labels: *alias`, two `<<` keys in one mapping, explicit tag contradicting the kind) were "
             "repaired in pint from the candidate patches (b9483ac, 17469da, e113542, b22de24+4a0d172); their witnesses are machine-checked "
             "to be blocked now, their known findings are removed. The finite key tables of both sides are regenerated from the sources on every run and checked against "
@@ -63,7 +68,7 @@ MANIFEST = {
             "key dropped/duplicated/misplaced, every value as an alias of every kind of anchor, under both name validation schemes), and "
             "reader-stress files crossing 4 KiB / 64 KiB line and buffer sizes with a valid or defective tail.",
     "note": "Coq 8.16.1 kernel+VM, no axioms; models hand-written and validated by differential execution; theorem holds on the stated "
-            "fragment under named oracle hypotheses; one open known finding (pint passes, Prometheus refuses).",
+            "fragment under named oracle hypotheses; two open known findings (pint passes, Prometheus refuses).",
     "technique": "Coq theorem relating two Gallina models (pint strict pipeline, Prometheus loader) over a shared node forest + reader "
                  "identity lemma + three-way differential correspondence + direct pint-vs-rulefmt.Parse oracle",
 }
